@@ -67,7 +67,9 @@ def evaluate(ctx, prop, cases):
                 nontrivial.add(c.req)
                 st['nontrivial'] += 1
         why = None
-        if a in ('PANIC', 'CRASH') and not (c.panic_ok and model.get(i) == 'PANIC'):
+        if a == 'HANG':
+            why = 'the implementation did not answer within the watchdog limit (blocked or looping)'
+        elif a in ('PANIC', 'CRASH') and not (c.panic_ok and model.get(i) == 'PANIC'):
             why = 'the implementation panicked'
         elif c.expect is not None and a != c.expect:
             why = 'expected answer %r' % c.expect
